@@ -77,6 +77,53 @@ theorem intConstType_is_C11 (octOrHex : Bool) (s : Suffix) (v : Nat) (t : BK)
   rw [← candidates_are_table] at h
   exact selectType_firstFit v _ (candidates_integer octOrHex s) t h
 
+/-- **… on EVERY configured platform**: whatever table of maxima the platform options hold (`mx`), as long as it is the table of some
+platform `p` (any widths), the constant has the first type of the 6.4.4.1 list that represents its value on `p`. -/
+theorem selectTypeM_firstFit (p : Platform) (mx : BK → Nat) (hmx : ∀ k, isIntegerK k = true → mx k = maxVal p k) (v : Nat) :
+    ∀ (l : List BK), (∀ k ∈ l, isIntegerK k = true) → ∀ t, firstFit p v l = some t → selectTypeM mx v l = t := by
+  intro l
+  induction l with
+  | nil => intro _ t h; simp [firstFit] at h
+  | cons k rest ih =>
+    intro hint t h
+    have hk := hmx k (hint k (by simp))
+    simp only [firstFit, List.find?_cons] at h
+    cases rest with
+    | nil =>
+      by_cases hv : v ≤ maxVal p k
+      · simp [hv] at h; simp [selectTypeM, h]
+      · simp [hv] at h
+    | cons k2 rest2 =>
+      by_cases hv : v ≤ maxVal p k
+      · simp [hv] at h
+        subst h
+        simp [selectTypeM, hk, hv]
+      · simp only [hv, decide_false] at h
+        simp only [selectTypeM, hk, if_neg hv]
+        exact ih (fun k' hk' => hint k' (List.mem_cons_of_mem _ hk')) t h
+
+theorem intConstTypeM_is_C11 (p : Platform) (mx : BK → Nat) (hmx : ∀ k, isIntegerK k = true → mx k = maxVal p k)
+    (octOrHex : Bool) (s : Suffix) (v : Nat) (t : BK)
+    (h : firstFit p v (table641 octOrHex s) = some t) : intConstTypeM mx octOrHex s v = t := by
+  unfold intConstTypeM
+  rw [← candidates_are_table] at h
+  exact selectTypeM_firstFit p mx hmx v _ (candidates_integer octOrHex s) t h
+
+/-- the default platform is the instance `mx := maxOf`, `p := lp64` -/
+theorem intConstType_is_default_instance (octOrHex : Bool) (s : Suffix) (v : Nat) :
+    intConstType octOrHex s v = intConstTypeM maxOf octOrHex s v := by
+  unfold intConstType intConstTypeM
+  generalize candidates octOrHex s = l
+  induction l with
+  | nil => rfl
+  | cons k rest ih => cases rest with
+    | nil => rfl
+    | cons k2 r2 => simp only [selectType, selectTypeM]; rw [ih]
+
+/-- non-vacuity on a 32-bit `long`: `0x100000000` is `long long`, `4294967296u` is `unsigned long long`, `2147483648` is `long long` -/
+example : intConstTypeM (maxVal ilp32) true .none 0x100000000 = .LongLong_S ∧ intConstTypeM (maxVal ilp32) false .u 4294967296 = .LongLong_U ∧
+    intConstTypeM (maxVal ilp32) false .none 2147483648 = .LongLong_S ∧ intConstTypeM (maxVal ilp32) true .none 0x80000000 = .Int_U := by decide
+
 /-- every value up to `ULLONG_MAX` has a type when the list ends in `unsigned long long` -/
 theorem firstFit_total (octOrHex : Bool) (s : Suffix) (v : Nat) (hv : v ≤ 18446744073709551615)
     (hlist : BK.LongLong_U ∈ table641 octOrHex s) : (firstFit lp64 v (table641 octOrHex s)).isSome = true := by
